@@ -9,7 +9,11 @@ import (
 	"math"
 	"os"
 	"path/filepath"
+	"strconv"
+	"strings"
+	"sync"
 
+	"github.com/siglens/siglens/pkg/segment/reader/metrics/series"
 	"github.com/siglens/siglens/pkg/segment/structs"
 	sutils "github.com/siglens/siglens/pkg/segment/utils"
 	"github.com/siglens/siglens/pkg/segment/writer"
@@ -264,3 +268,65 @@ func init() {
 	Register("mputl", mputLight)
 	Register("mdumpfiles", mdumpFiles)
 }
+
+// mseriesread: the real per-block series reader on one block: a fresh TimeSeriesBlockReader, then the given tsids
+// are looked up in the given order (the reader keeps a cursor between lookups).
+func mseriesRead(raw json.RawMessage) (interface{}, error) {
+	var a struct {
+		Tsg   string   `json:"tsg"`   // path of the block's .tsg file relative to the worker directory
+		Order []string `json:"order"` // tsids in decimal
+	}
+	if err := json.Unmarshal(raw, &a); err != nil {
+		return nil, err
+	}
+	p := DataDir + a.Tsg
+	i := strings.LastIndex(p, "_")
+	if i < 0 || !strings.HasSuffix(p, ".tsg") {
+		return nil, fmt.Errorf("not a block file: %s", a.Tsg)
+	}
+	blk, err := strconv.ParseUint(strings.TrimSuffix(p[i+1:], ".tsg"), 10, 16)
+	if err != nil {
+		return nil, err
+	}
+	seg, err := series.InitTimeSeriesReader(p[:i])
+	if err != nil {
+		return nil, err
+	}
+	defer seg.Close()
+	br, err := seg.InitReaderForBlock(uint16(blk), &structs.MetricsQueryProcessingMetrics{UpdateLock: &sync.Mutex{}})
+	if err != nil {
+		return map[string]interface{}{"initErr": err.Error()}, nil
+	}
+	type res struct {
+		Tsid   string      `json:"tsid"`
+		Found  bool        `json:"found"`
+		Err    string      `json:"err,omitempty"`
+		Points [][2]uint64 `json:"points"`
+	}
+	var out []res
+	for _, t := range a.Order {
+		id, perr := strconv.ParseUint(t, 10, 64)
+		if perr != nil {
+			return nil, perr
+		}
+		r := res{Tsid: t}
+		it, found, gerr := br.GetTimeSeriesIterator(id)
+		r.Found = found
+		if gerr != nil {
+			r.Err = gerr.Error()
+		}
+		if found && it != nil {
+			for it.Next() {
+				ts, v := it.At()
+				r.Points = append(r.Points, [2]uint64{uint64(ts), math.Float64bits(v)})
+			}
+			if it.Err() != nil {
+				r.Err = it.Err().Error()
+			}
+		}
+		out = append(out, r)
+	}
+	return map[string]interface{}{"lookups": out}, nil
+}
+
+func init() { Register("mseriesread", mseriesRead) }
